@@ -117,6 +117,103 @@ def verdict_class(v):
     return " ".join(t[2:]) if len(t) >= 3 and t[0] == "bad" else v
 
 
+def dyn_poly_verdict(case):
+    """Polynomial oracle for histories of ANY size, judged on the implementation's recorded outcomes (independent of the
+    brute-force oracle, which judges up to 10 live arguments, and of the model): the framework after each step is
+    rebuilt with the plain set model (an update that is not valid changes nothing); for every query the members of a
+    returned certificate must be live (id, label) pairs, each once, the set conflict-free, admissible, complete (co, pr)
+    resp. stable (st), containing (credulous YES) resp. omitting (skeptical NO) the queried argument; statuses decided
+    by the grounded extension alone (argument in it / defeated by it / grounded extension stable) must be the decided
+    ones.  -> None or `bad <step> <reason>`."""
+    kind = case.kind.split("/")[-1]
+    sem = kind.replace("dummy_", "").replace("_att", "")
+    if sem not in ("co", "st", "pr"):
+        return None
+    m, ident, nxt = SetModel(), {}, 0
+    for n, (inl, _evs, outs) in enumerate(per_step(case)):
+        t = inl.split()
+        if not t or t[0] not in ("op", "q"):
+            continue
+        if t[0] == "op":
+            cl = m.apply(t[1:])
+            if cl == "valid" and t[1] == "+a":
+                ident[t[2]] = nxt
+                nxt += 1
+            elif cl == "valid" and t[1] == "-a":
+                ident.pop(t[2], None)
+            continue
+        q, lab = t[1], t[2]
+        if lab not in m.live or not outs:
+            continue
+        o = outs[0].split()
+        if len(o) < 3 or o[0] != "acc" or o[1] not in ("YES", "NO"):
+            continue
+        attackers = {a: set() for a in m.live}
+        targets = {a: set() for a in m.live}
+        for (a, b) in m.rel:
+            attackers[b].add(a)
+            targets[a].add(b)
+        G, D, ch = set(), set(), True
+        while ch:
+            ch = False
+            for a in m.live:
+                if a not in G and a not in D and attackers[a] <= D:
+                    G.add(a); D |= targets[a]; ch = True
+        g_stable = not (m.live - G - D)
+        want = None
+        if g_stable:
+            want = lab in G
+        elif sem == "co" and q == "DS":
+            want = lab in G                 # skeptical complete acceptance IS grounded membership
+        elif sem in ("co", "pr"):
+            want = True if lab in G else (False if lab in D else None)
+        elif q == "DS" and lab in G:
+            want = True
+        elif q == "DC" and lab in D:
+            want = False
+        if want is not None and (o[1] == "YES") != want:
+            return "bad %d poly-status-%s-decided-by-the-grounded-extension-expected-%s" % (n, o[1], "YES" if want else "NO")
+        if o[2] != "cert":
+            continue
+        S = set()
+        for mem in o[3:]:
+            i, _, l = mem.partition(":")
+            if l not in m.live or str(ident.get(l)) != i:
+                return "bad %d poly-member-%s-is-not-a-live-argument-with-its-id" % (n, mem)
+            if l in S:
+                return "bad %d poly-duplicate-member" % n
+            S.add(l)
+        hit = set()
+        for a in S:
+            hit |= targets[a]
+        if S & hit:
+            return "bad %d poly-certificate-is-not-conflict-free" % n
+        if sem == "st":
+            if (m.live - S) - hit:
+                return "bad %d poly-certificate-is-not-stable" % n
+        else:
+            if any(not attackers[a] <= hit for a in S):
+                return "bad %d poly-certificate-is-not-admissible" % n
+            if any(attackers[a] <= hit for a in m.live - S):
+                return "bad %d poly-certificate-is-not-complete" % n
+        if q == "DC" and o[1] == "YES" and lab not in S:
+            return "bad %d poly-credulous-certificate-omits-the-argument" % n
+        if q == "DS" and o[1] == "NO" and lab in S:
+            return "bad %d poly-skeptical-certificate-contains-the-argument" % n
+    return None
+
+
+def full_verdict(impl_case, spec_case):
+    """verdict of the brute-force oracle (driver dynspec), overridden by the polynomial oracle when that one objects and
+    the brute force does not (it skips histories with more than 10 live arguments)"""
+    v = verdict_of(spec_case) if spec_case else "missing"
+    if not v.startswith("bad") and v != "missing":
+        pv = dyn_poly_verdict(impl_case)
+        if pv is not None:
+            return pv
+    return v
+
+
 class Runner:
     """re-runs one history through harness (--replay) and oracle"""
 
@@ -157,13 +254,13 @@ def minimise(runner, case, vclass, allow_invalid, budget=250):
         r = runner.run(case.kind, header, cand)
         if r is None:
             return False
-        return verdict_class(verdict_of(r[1][0])) == vclass
+        return verdict_class(full_verdict(r[0], r[1][0])) == vclass
 
     start = runner.n
     # 1. cut everything after the failing step
     r = runner.run(case.kind, header, steps)
     if r is not None:
-        v = verdict_of(r[1][0]).split()
+        v = full_verdict(r[0], r[1][0]).split()
         if len(v) >= 2 and v[0] == "bad" and v[1].isdigit():
             cut = steps[: int(v[1])]
             if fails(cut):
@@ -345,7 +442,9 @@ def dynamic_check(ctx, invalid, total, rule, modelled=True):
                 samples.append({"kind": c.kind, "history": [x for x in c.ins], "outcomes": c.outs[:40],
                                 "oracle": verdict_of(sp) if sp else ""})
             # ---- implementation-level oracle
-            v = verdict_of(sp) if sp else "missing"
+            v = full_verdict(c, sp)
+            if sp and verdict_of(sp).startswith("skipped"):
+                stats["histories_above_the_brute_force_limit_judged_by_the_polynomial_oracle"] = stats.get("histories_above_the_brute_force_limit_judged_by_the_polynomial_oracle", 0) + 1
             if v.startswith("bad") or v == "missing":
                 failing.append((c, v))
                 continue
